@@ -29,7 +29,17 @@ RULE = ("cipher x MAC x compression cycled over everything SSHTransportBase offe
         "(real ssh_KEXINIT negotiating that round's cipher/MAC/compression), _keySetup (our NEWKEYS) and the peer's NEWKEYS in "
         "either order (client), 0..3 payloads in flight at every stage, first key exchange from `none`, histories ending inside an "
         "exchange, sendKexInit during an exchange; the receiver switches by its own real ssh_KEXINIT/_keySetup/ssh_NEWKEYS; same "
-        "segmentations and alterations; distinct adds (role, kex op sequence, max payloads held back, open/closed)")
+        "segmentations and alterations; distinct adds (role, kex op sequence, max payloads held back, open/closed).  "
+        "Mutation audit (harness/mutants/C35): one case in three gives the OTHER direction of the connection its own algorithms (`rev`, and "
+        "6-element epochs: another block size, another MAC length, MAC / compression in one direction only; in histories through KEXINITs "
+        "whose name-lists differ per direction), each direction with its own keys; re-keys negotiate the algorithms already in use (all, or "
+        "all but one) in ~45% of the rounds; ~26 cases per quick run carry LONG messages (32 KiB .. the 2^20 packet limit, incompressible / "
+        "zeros / a pattern; with zlib also payloads of 1-3 MiB that compress to a few KB) delivered in one piece, in 16/64 KiB reads or at "
+        "random cuts, a quarter of them with a byte altered — oracle-only (no model line) when a payload or the wire exceeds 20000 bytes; "
+        "30% of the identifications have lines before the version line that contain the version line's text (indented, quoted, with CR, "
+        "doubled, cut short); a quarter of the identification cases continue in the clear (cipher none) and most of those carry CR LF / LF CR / "
+        "CR CR LF inside the packets; block size and MAC length given to the model and used by the oracle come from the RFC tables, not "
+        "from the transport's objects; distinct adds (other direction's block size / MAC relation / compression, long/huge, same-algorithm re-key)")
 ASSUMES = [
     "key exchange: the negotiation and the queueing/flush state machine run for real (sendKexInit, ssh_KEXINIT, _keySetup, ssh_NEWKEYS, "
     "_newKeys); the key exchange METHOD (DH/ECDH messages, host key signature) is replaced by a shared secret handed to _keySetup on both "
@@ -45,6 +55,11 @@ ASSUMES = [
     "identification (banner lines + version line) <= 4096 bytes, banner lines do not start with 'SSH-', version is 2.0 or 1.99",
     "each packet length <= 2^20 (getPacket refuses longer packets by design); message payload (type byte + data) is never empty",
     "after a disconnect the connection stops reading (transport.loseConnection); nothing is delivered afterwards",
+    "per-direction algorithms in histories: Twisted's own sendKexInit cannot offer different lists for the two directions, so the peer's "
+    "KEXINIT handed to the sender is crafted (name-lists per direction, RFC 4253 7.1) and the receiver's real ssh_KEXINIT is handed the "
+    "same crafted payload in place of the (symmetric) KEXINIT it has just dispatched from the wire; the other direction carries no traffic",
+    "long messages (payload or wire > 20000 bytes) are judged by the oracle only in the quick tier (the list-based model needs seconds "
+    "per MiB); the theorems have no size bound below the 2^20 packet limit",
 ]
 TRUSTED = ["cryptography (AES/3DES CBC/CTR), hmac/hashlib, zlib: recorded and replayed into the model as scripts, contracts are hypotheses",
            "harness/corr/C35.py recording proxies around SSHCiphers.encrypt/decrypt/makeMAC/verify and the zlib objects"]
@@ -63,7 +78,10 @@ MANIFEST = {
             "calls, none lost/duplicated (held_back_payloads_keep_their_order), _newKeys sends the whole queue front to back with the new "
             "algorithms (new_keys_sends_held_back_in_order), and a receiver switching algorithms at each dispatched NEWKEYS delivers any "
             "chain of honest packets exactly, under any segmentation (rekey_stream_delivered_any_segmentation_partial; partial: the "
-            "sender-chain lemma and the identification phase in front are tie-only); key exchange methods not modelled",
+            "sender-chain lemma and the identification phase in front are tie-only); key exchange methods not modelled.  The theorems are "
+            "stated for ONE direction (a SendAlg/RecvAlg pair): the algorithms of the other direction do not occur in them; that the transport "
+            "keeps the two directions apart (block size, MAC length, compression, keys) is checked by the tie + oracle on cases whose "
+            "directions differ (mutation audit, harness/mutants/C35/README.md)",
     "technique": "Lean 4 proof (receiver invariant over arbitrary segmentations, frame chain induction) + scripted-crypto differential tie",
     "design_ref": "DESIGN.md §7 C35",
 }
@@ -85,13 +103,13 @@ class _CompProxy:
     def __init__(self, obj, log):
         self.obj, self.log, self.cur = obj, log, None
 
-    def compress(self, data):
-        out = self.obj.compress(data)
+    def compress(self, data, *a):
+        out = self.obj.compress(data, *a)
         self.cur = [bytes(data), out]
         return out
 
-    def flush(self, mode):
-        out = self.obj.flush(mode)
+    def flush(self, *a):
+        out = self.obj.flush(*a)
         self.cur[1] += out
         self.log.append(tuple(self.cur))
         return out
@@ -101,9 +119,9 @@ class _DecompProxy:
     def __init__(self, obj, log):
         self.obj, self.log = obj, log
 
-    def decompress(self, data):
+    def decompress(self, data, *a):      # extra arguments (max_length) go through: the proxy must not change what the call does
         try:
-            out = self.obj.decompress(data)
+            out = self.obj.decompress(data, *a)
         except Exception:
             self.log.append((bytes(data), None))
             raise
@@ -111,23 +129,86 @@ class _DecompProxy:
         return out
 
 
-def _keys(c):
-    seed = hashlib.sha512(("%s/%s/%s" % (c["cipher"], c["mac"], c.get("padseed", 0))).encode()).digest()
+# block size / MAC length of every algorithm, from RFC 4253 6.3 / 6.4 and RFC 6668 (NOT read from the code under test:
+# what the model is told and what the oracle measures offsets with must not follow a regression of the transport)
+_MS = {"hmac-sha2-512": 64, "hmac-sha2-384": 48, "hmac-sha2-256": 32, "hmac-sha1": 20, "hmac-md5": 16, "none": 0}
+
+
+def _bs_of(cipher):
+    return 16 if cipher.startswith("aes") else 8
+
+
+def _fw(ep):
+    """the algorithms of the observed direction (sender -> receiver) of a configuration / an epoch"""
+    return list(ep[:3])
+
+
+def _rv(ep):
+    """… and of the other direction (receiver -> sender); the same unless the configuration names them"""
+    return list(ep[3:6]) if len(ep) >= 6 else list(ep[:3])
+
+
+def _cfg0(c):
+    return [c["cipher"], c["mac"], c["comp"]] + list(c.get("rev") or [])
+
+
+def _asym(ep):
+    return _fw(ep) != _rv(ep)
+
+
+def _keys(c, d=0):
+    """iv, key, integrity key of direction d (0: sender -> receiver, 1: receiver -> sender)"""
+    seed = hashlib.sha512(("%s/%s/%s%s" % (c["cipher"], c["mac"], c.get("padseed", 0), "/rev" if d else "")).encode()).digest()
     return seed[:16] * 2, seed[16:48] + seed[:8], seed[:64]
 
 
-def _mk(cls, c):
+def _mk(cls, c, sender=True):
+    """a connected transport past its first key exchange: the sender's outgoing algorithms (= the receiver's incoming ones)
+    are the case's cipher/mac, the other direction's are c["rev"] (RFC 4253 7.1 negotiates each direction by itself);
+    each direction has its own keys"""
     t = cls()
     t._log = _QUIET
     t.makeConnection(StringTransport())
     t._keyExchangeState = t._KEY_EXCHANGE_NONE
     t._blockedByKeyExchange = None
     t.transport.clear()
-    enc = transport.SSHCiphers(c["cipher"].encode(), c["cipher"].encode(), c["mac"].encode(), c["mac"].encode())
-    iv, key, integ = _keys(c)
-    enc.setKeys(iv, key, iv, key, integ, integ)
+    cfg = _cfg0(c)
+    out, inn = (_fw(cfg), _rv(cfg)) if sender else (_rv(cfg), _fw(cfg))
+    enc = transport.SSHCiphers(out[0].encode(), inn[0].encode(), out[1].encode(), inn[1].encode())
+    ko, ki = (_keys(c, 0), _keys(c, 1)) if sender else (_keys(c, 1), _keys(c, 0))
+    enc.setKeys(ko[0], ko[1], ki[0], ki[1], ko[2], ki[2])
     t.currentEncryptions = enc
     return t
+
+
+BIG = 20000       # a run whose wire is longer is oracle-only (the list-based model is slow) and its observable is abbreviated
+
+
+def _data(m):
+    """the data of a message of a case: hex | n (n zero bytes) | ["z", n] zeros | ["r", n, seed] incompressible |
+    ["p", n, hex] a pattern repeated to n bytes"""
+    d = m[1]
+    if isinstance(d, str):
+        return bytes.fromhex(d)
+    if isinstance(d, int):
+        return b"\x00" * d
+    kind, n = d[0], d[1]
+    if kind == "z":
+        return b"\x00" * n
+    if kind == "r":
+        return random.Random(d[2]).randbytes(n)
+    if kind == "p":
+        pat = bytes.fromhex(d[2]) or b"\x00"
+        return (pat * (n // len(pat) + 1))[:n]
+    raise ValueError(kind)
+
+
+def _short(e):
+    """an event with a long payload abbreviated (observable of oracle-only runs)"""
+    if len(e) <= 300:
+        return e
+    head, _, body = e.partition(":")
+    return "%s:#%s/%d" % (head, hashlib.sha1(body.encode()).hexdigest(), len(body) // 2)
 
 
 def ident_bytes(c):
@@ -174,11 +255,11 @@ def _execute(c):
         rec["pads"].append(b)
         return b
 
-    S = _mk(transport.SSHClientTransport if c.get("dir") else transport.SSHServerTransport, c)
-    R = _mk(transport.SSHServerTransport if c.get("dir") else transport.SSHClientTransport, c)
+    S = _mk(transport.SSHClientTransport if c.get("dir") else transport.SSHServerTransport, c, True)
+    R = _mk(transport.SSHServerTransport if c.get("dir") else transport.SSHClientTransport, c, False)
     S.outgoingPacketSequence = R.incomingPacketSequence = c["seq0"]
     se, re_ = S.currentEncryptions, R.currentEncryptions
-    bs, ms = re_.decBlockSize, re_.verifyDigestSize
+    bs, ms = _bs_of(c["cipher"]), _MS[c["mac"]]
     oe, om, od, ov = se.encrypt, se.makeMAC, re_.decrypt, re_.verify
 
     def enc(x):
@@ -205,8 +286,11 @@ def _execute(c):
     if c["comp"] == "zlib":
         S.outgoingCompression = _CompProxy(zlib.compressobj(6), rec["comp"])
         R.incomingCompression = _DecompProxy(zlib.decompressobj(), rec["decomp"])
+    if _rv(_cfg0(c))[2] == "zlib":      # the other direction's compression (never used by this run)
+        S.incomingCompression = zlib.decompressobj()
+        R.outgoingCompression = zlib.compressobj(6)
 
-    msgs = [(m[0], bytes.fromhex(m[1]) if isinstance(m[1], str) else b"\x00" * m[1]) for m in c["msgs"]]
+    msgs = [(m[0], _data(m)) for m in c["msgs"]]
     transport.randbytes.secureRandom = fake_random
     try:
         for mt, data in msgs:
@@ -257,9 +341,18 @@ def _execute(c):
                     break
         except Exception as e:
             res["exc"] = e
-    res["obs"] = "wire=%s|ev=%s|ok=1" % (hx(wire), ",".join(evs))
     res["evs"] = evs
-    res["meta"] = {"bs": bs, "ms": ms, "pkts": rec["pkts"], "toff": toff, "ident": len(ident), "wire": len(wire), "nseg": len(segs)}
+    res["meta"] = {"bs": bs, "ms": ms, "pkts": rec["pkts"], "toff": toff, "ident": len(ident), "wire": len(wire), "nseg": len(segs),
+                   "long": max([len(wire)] + [len(d) for _, d in msgs])}
+    if res["meta"]["long"] > BIG and not c.get("model"):
+        # oracle-only: no line for the model, abbreviated observable
+        res["obs"] = "wire=#%s/%d|ev=%s|ok=1" % (hashlib.sha1(wire).hexdigest(), len(wire), ",".join(_short(e) for e in evs))
+        res["line"] = None
+        res.pop("rec")
+        _CACHE.clear()
+        _CACHE[key] = res
+        return res
+    res["obs"] = "wire=%s|ev=%s|ok=1" % (hx(wire), ",".join(evs))
 
     def script(pairs, isid):
         if isid:
@@ -365,25 +458,37 @@ def _secret(c, k):
 
 
 def _restrict(t, ep):
+    """what this transport supports in the coming key exchange: this round's algorithms (of both directions)"""
+    fw, rv = _fw(ep), _rv(ep)
     t.supportedKeyExchanges = [b"curve25519-sha256"]
     t.supportedPublicKeys = [b"ssh-ed25519", b"rsa-sha2-256"]
-    t.supportedCiphers = [ep[0].encode()]
-    t.supportedMACs = [ep[1].encode()]
-    t.supportedCompressions = [ep[2].encode()]
+    for k, name in enumerate(("supportedCiphers", "supportedMACs", "supportedCompressions")):
+        setattr(t, name, [fw[k].encode()] + ([rv[k].encode()] if rv[k] != fw[k] else []))
 
 
-def _peer_kexinit(cls, ep):
-    """a KEXINIT payload as the other side's real sendKexInit writes it for this round's algorithms"""
+def _peer_kexinit(cls, ep, sender_is_client=False):
+    """a KEXINIT payload as the other side's real sendKexInit writes it for this round's algorithms.  When the round has
+    different algorithms for the two directions, the name-lists of the payload are per direction (RFC 4253 7.1:
+    encryption/mac/compression_algorithms_client_to_server / _server_to_client) — Twisted's own sendKexInit always writes the
+    same list twice, other implementations need not"""
     h = cls()
     h._log = _QUIET
     _restrict(h, ep)
     h.makeConnection(StringTransport())
-    return h.ourKexInitPayload[1:]
+    p = h.ourKexInitPayload[1:]
+    if not _asym(ep):
+        return p
+    from twisted.conch.ssh.common import NS, getNS
+    k = getNS(p[16:], 10)
+    f = list(k[:-1])
+    cs, sc = (_fw(ep), _rv(ep)) if sender_is_client else (_rv(ep), _fw(ep))
+    f[2:8] = [cs[0].encode(), sc[0].encode(), cs[1].encode(), sc[1].encode(), cs[2].encode(), sc[2].encode()]
+    return p[:16] + b"".join(NS(x) for x in f) + k[-1]
 
 
 def _execute_hist(c):
     import zlib
-    eps = [[c["cipher"], c["mac"], c["comp"]]] + [list(e) for e in c.get("epochs", [])]
+    eps = [_cfg0(c)] + [list(e) for e in c.get("epochs", [])]
     prng = random.Random(c.get("padseed", 0))
     randlog = []
     real_random = transport.randbytes.secureRandom
@@ -397,7 +502,7 @@ def _execute_hist(c):
     res = {"exc": None}
     scls = transport.SSHClientTransport if c.get("dir") else transport.SSHServerTransport
     rcls = transport.SSHServerTransport if c.get("dir") else transport.SSHClientTransport
-    S, R = _mk(scls, c), _mk(rcls, c)
+    S, R = _mk(scls, c, True), _mk(rcls, c, False)
     S.connectionSecure = R.connectionSecure = lambda: None
     from cryptography.hazmat.primitives.asymmetric import x25519
     ecn = [0]
@@ -416,11 +521,14 @@ def _execute_hist(c):
     rep = [new_ep(eps[0], "id" if eps[0][2] == "none" else [])]      # … and the receiver
     _wrap_out(S.currentEncryptions, sep[0])
     _wrap_in(R.currentEncryptions, rep[0])
-    sep[0]["bs"] = S.currentEncryptions.encBlockSize
-    rep[0]["bs"], rep[0]["ms"] = R.currentEncryptions.decBlockSize, R.currentEncryptions.verifyDigestSize
+    sep[0]["bs"] = _bs_of(eps[0][0])
+    rep[0]["bs"], rep[0]["ms"] = _bs_of(eps[0][0]), _MS[eps[0][1]]
     if eps[0][2] == "zlib":
         S.outgoingCompression = _CompProxy(zlib.compressobj(6), sep[0]["comp"])
         R.incomingCompression = _DecompProxy(zlib.decompressobj(), rep[0]["decomp"])
+    if _rv(eps[0])[2] == "zlib":      # the other direction's compression (never used by this run)
+        S.incomingCompression = zlib.decompressobj()
+        R.outgoingCompression = zlib.compressobj(6)
 
     ops, sent, writes = [], [], []
     st = {"flush": False, "in": None, "round": 0, "ep": 0, "pending": None, "hop": 0}
@@ -464,7 +572,7 @@ def _execute_hist(c):
         ep = new_ep(st["next"], None)
         sep.append(ep)
         _wrap_out(S.nextEncryptions, ep)
-        ep["bs"] = S.nextEncryptions.encBlockSize
+        ep["bs"] = _bs_of(st["next"][0])
         st["ep"] = len(sep) - 1
         st["flush"] = True
         n0 = len(ctx["created"])
@@ -472,8 +580,10 @@ def _execute_hist(c):
             real_nk()
         finally:
             st["flush"] = False
+            # the model is told what the negotiated names say (a fresh compressor iff this direction's compression is zlib),
+            # not what the transport did: if it made one it should not have (or none), the scripts do not fit
             made = [x for x in ctx["created"][n0:] if x[1] == "comp"]
-            ep["comp"] = made[0][2] if made else "keep"
+            ep["comp"] = (made[0][2] if made else []) if st["next"][2] == "zlib" else "keep"
 
     S.sendPacket, S._newKeys, S.sendKexInit = sp, nk, ski
 
@@ -496,7 +606,7 @@ def _execute_hist(c):
                     ops.append(["p", None])
                     st["pending"] = ops[-1]
                     try:
-                        S.ssh_KEXINIT(_peer_kexinit(rcls, ep))
+                        S.ssh_KEXINIT(_peer_kexinit(rcls, ep, bool(c.get("dir"))))
                     finally:
                         st["pending"] = None
                 elif k == "y":
@@ -533,11 +643,11 @@ def _execute_hist(c):
             ep = new_ep(rst["next"], None)
             rep.append(ep)
             _wrap_in(R.nextEncryptions, ep)
-            ep["bs"], ep["ms"] = R.nextEncryptions.decBlockSize, R.nextEncryptions.verifyDigestSize
+            ep["bs"], ep["ms"] = _bs_of(rst["next"][0]), _MS[rst["next"][1]]
             n0 = len(ctx["created"])
             real_rnk()
             made = [x for x in ctx["created"][n0:] if x[1] == "decomp"]
-            ep["decomp"] = made[0][2] if made else "keep"
+            ep["decomp"] = (made[0][2] if made else []) if rst["next"][2] == "zlib" else "keep"
 
         R._newKeys = rnk
 
@@ -547,7 +657,9 @@ def _execute_hist(c):
                 ep = eps[min(rst["round"] + 1, len(eps) - 1)]
                 rst["next"] = ep
                 _restrict(R, ep)
-                type(R).ssh_KEXINIT(R, p)
+                # per-direction algorithms: the receiver is handed the KEXINIT of a peer that lists them per direction
+                # (the one on the wire, written by Twisted's sendKexInit, has every list twice)
+                type(R).ssh_KEXINIT(R, _peer_kexinit(scls, ep, bool(c.get("dir"))) if _asym(ep) else p)
                 R._keySetup(*_secret(c, rst["round"]))
                 rst["round"] += 1
             elif n == 21:
@@ -687,10 +799,6 @@ def _sizes_ok(c, meta):
         if p - meta["ms"] - 4 > LIMIT:
             return False
     return True
-
-
-def _data(m):
-    return bytes.fromhex(m[1]) if isinstance(m[1], str) else b"\x00" * m[1]
 
 
 
@@ -857,7 +965,7 @@ def oracle(c, out):
     if not c.get("gv"):
         # identification phase: the version line is recorded exactly, nothing before it disturbs the transport
         exp.append("V:" + hx(bytes.fromhex(c["version"]).rstrip(b"\r")))
-        detail = f"ident={ident_bytes(c)!r} cuts={c.get('cuts')} got {evs[:3]}"
+        detail = f"ident={ident_bytes(c)!r} cuts={str(c.get('cuts'))[:200]} got {[_short(e) for e in evs[:3]]}"
         if any(d.startswith(b"Peer version string longer") for d in ds):
             return {"key": "ident-4k-coalesced", "detail": "identification <= 4096 bytes but refused when delivered together with packets: " + detail}
         if evs and evs[0].startswith("V:") and evs[0] != exp[0]:
@@ -870,7 +978,7 @@ def oracle(c, out):
         exp += msgs_ev
         if evs == exp:
             return None
-        detail = f"ident={ident_bytes(c)!r} cuts={c.get('cuts')} expected {len(exp)} events, got {evs[:4]}"
+        detail = f"ident={ident_bytes(c)!r} cuts={str(c.get('cuts'))[:200]} expected {len(exp)} events, got {[_short(e) for e in evs[:4]]}"
         return {"key": "delivery", "detail": detail}
     # one byte altered
     if c["mac"] == "none" or toff < meta["ident"]:
@@ -883,13 +991,13 @@ def oracle(c, out):
     got_m = [e for e in evs if not e.startswith("D")]
     got_d = [e for e in evs if e.startswith("D")]
     if got_m != exp[:len(got_m)] or len(got_m) > len(exp):
-        return {"key": "tamper-delivered", "detail": f"byte {off} of packet {j} altered ({c['cipher']},{c['mac']},{c['comp']}): dispatched {got_m[len(exp):][:2]}"}
+        return {"key": "tamper-delivered", "detail": f"byte {off} of packet {j} altered ({c['cipher']},{c['mac']},{c['comp']}): dispatched {[_short(e) for e in got_m[len(exp):][:2]]}"}
     if len(got_m) < len(exp):
-        return {"key": "delivery", "detail": f"packets before the altered one not delivered: {evs[:4]}"}
+        return {"key": "delivery", "detail": f"packets before the altered one not delivered: {[_short(e) for e in evs[:4]]}"}
     if not got_d and off >= meta["bs"]:
         return {"key": "tamper-undetected", "detail": f"byte {off} of packet {j} altered, no disconnect ({c['cipher']},{c['mac']},{c['comp']})"}
     if got_d and evs[-1] != got_d[0]:
-        return {"key": "tamper-delivered", "detail": f"events after the disconnect: {evs[-3:]}"}
+        return {"key": "tamper-delivered", "detail": f"events after the disconnect: {[_short(e) for e in evs[-3:]]}"}
     return None
 
 
@@ -923,6 +1031,25 @@ def corpus():
         _base(tamper=[0, 1]), _base(tamper=[4, 255]), _base(tamper=[20, 1]), _base(tamper=[33, 128], cipher="3des-cbc", mac="hmac-md5"),
         _base(comp="zlib", tamper=[7, 2], mac="none"), _base(comp="zlib", msgs=[[94, 300], [94, 300]], tamper=[30, 2], mac="none", cipher="none"),
         _base(msgs=[[94, ""], [1, ""], [255, "00"]], cuts=[1] * 200),
+        # mutation audit (harness/mutants/C35): the other direction of the connection uses other algorithms — another MAC
+        # length (m01), another block size (m02), a MAC in one direction only (m09), compression in one direction only
+        _base(mac="hmac-sha1", rev=["aes128-ctr", "hmac-sha2-256", "none"], msgs=[[94, "68656c6c6f"], [95, "78"]]),
+        _base(cipher="aes128-cbc", mac="hmac-sha1", rev=["3des-cbc", "hmac-sha1", "zlib"], msgs=[[94, "68656c6c6f"], [95, "78"]], cuts=[1] * 200),
+        _base(cipher="3des-cbc", mac="hmac-md5", comp="zlib", rev=["aes256-ctr", "hmac-md5", "none"], msgs=[[94, "68656c6c6f"], [95, "78"]], dir=1),
+        _base(mac="hmac-sha1", rev=["aes128-ctr", "none", "none"], msgs=[[94, "68656c6c6f"], [95, "78"]]),
+        _base(mac="hmac-sha1", rev=["aes128-ctr", "none", "none"], msgs=[[94, "68656c6c6f"], [95, "78"]], tamper=[10, 1]),
+        _base(mac="none", rev=["aes128-ctr", "hmac-sha2-512", "none"], msgs=[[94, "68656c6c6f"], [95, "78"]], dir=1),
+        # long messages: beyond 256 KiB (m05: a lower packet limit), decompressing to more than 256 KiB / than the packet limit (m06)
+        _base(msgs=[[94, ["r", 300000, 1]], [95, "78"]]),
+        _base(comp="zlib", msgs=[[94, ["z", 300000]], [95, "78"]]),
+        _base(comp="zlib", cipher="3des-cbc", mac="hmac-sha1", msgs=[[2, "00"], [94, ["p", 3 * LIMIT + 17, "616263640a"]], [95, "78"]], cuts=[100, 1000]),
+        _base(msgs=[[94, ["r", LIMIT - 4096, 2]], [95, "78"]], tamper=[500000, 1]),
+        # lines before the version line that contain its text (m07), CR LF inside the packets that arrive together with the
+        # version line (m13)
+        _base(gv=0, banner=[(b"please use " + bytes.fromhex(V) + b"\r").hex()], version=V, eol="0d0a", cuts=[]),
+        _base(gv=0, banner=[(b" " + bytes.fromhex(V)).hex(), (b"> " + bytes.fromhex(V)).hex()], version=V, eol="0a", cuts=[60]),
+        _base(gv=0, cipher="none", mac="none", banner=[], version=V, eol="0d0a", msgs=[[94, b"line1\r\nline2".hex()], [95, "78"]], cuts=[]),
+        _base(gv=0, cipher="none", mac="hmac-sha1", banner=["6869"], version=V, eol="0d0a", msgs=[[94, b"\r\n\r\n".hex()], [2, "0d"], [95, "0d0a"]], cuts=[30]),
     ] + _hist_corpus()
 
 
@@ -963,6 +1090,16 @@ def _hist_corpus():
         _h([S(94, "aa"), K, S(94, "b1"), S(2, "c1"), P, S(94, "b2"), Y, S(3, "00000001")]),
         _h([S(94, "aa"), K, S(94, "b1"), K, S(94, "b2")]),
         _h([S(94, "aa"), K, S(94, "b1"), S(94, "b2"), P, Y, N, S(94, "cc")], tamper=[700, 4]),
+        # mutation audit: a re-key that negotiates the algorithms already in use (the usual case; m08), with messages that are
+        # allowed during key exchange sent before our NEWKEYS
+        _h([S(94, "aa"), P, S(2, "1234"), Y, N, S(94, "bb")], epochs=[["aes128-ctr", "hmac-sha2-256", "none"]]),
+        _h([S(94, "aa"), K, S(2, "12"), P, S(4, "0100000000"), Y, S(94, "b1"), N, S(94, "bb"), K, P, S(2, ""), Y, N, S(94, "cc")], dir=1,
+           cipher="3des-cbc", mac="hmac-sha1", comp="zlib", epochs=[["3des-cbc", "hmac-sha1", "zlib"], ["3des-cbc", "hmac-sha1", "zlib"]]),
+        # … and one with different algorithms for the two directions (compression one way only: m03, m04; other sizes: m01, m02)
+        _h([S(94, "aa"), P, Y, N, S(94, "b1"), S(94, "b2")], epochs=[["aes128-ctr", "hmac-sha1", "zlib", "aes128-ctr", "hmac-sha1", "none"]]),
+        _h([S(94, "aa"), P, Y, N, S(94, "b1"), S(94, "b2")], epochs=[["aes128-ctr", "hmac-sha1", "none", "aes128-ctr", "hmac-sha1", "zlib"]]),
+        _h([S(94, "aa"), K, S(94, "b0"), P, Y, N, S(94, "b1"), S(94, "b2")], dir=1, rev=["aes192-ctr", "hmac-md5", "zlib"],
+           epochs=[["aes256-cbc", "hmac-sha2-512", "none", "3des-cbc", "hmac-sha1", "zlib"], ["3des-cbc", "none", "zlib", "aes128-ctr", "hmac-sha1", "none"]]),
     ]
 
 
@@ -1008,6 +1145,12 @@ def _ident(rng):
     v = rng.choice([b"SSH-2.0-OpenSSH_9.6", b"SSH-2.0-Twisted_23 some comment", b"SSH-1.99-x", b"SSH-2.0-a-b-c", b"SSH-2.0-x SSH- y"])
     if rng.random() < 0.08:
         v = rng.choice([b"SSH-1.5-old", b"SSH-2.0", b"SSH-3.0-new", b"SSH-"])
+    if rng.random() < 0.3:
+        # lines before the version line that CONTAIN the version line's text (quoted, indented, cut short, doubled):
+        # legal (they do not start with "SSH-"), and they defeat locating the version line by its text
+        echo = [b" " + v, b"use " + v, b"use " + v + b"\r", b"x" + v + b"\r", v[1:], b"> " + v + b" " + v, b"\t" + v + b"\r"]
+        for _ in range(rng.choice([1, 1, 2])):
+            banner.insert(rng.randrange(len(banner) + 1), rng.choice(echo))
     if rng.random() < 0.05:   # fill to the 4096 limit +-2
         tot = sum(len(b) + 1 for b in banner) + len(v) + 2
         banner.append(b"f" * max(0, 4096 - tot - 1 + rng.choice([-2, -1, 0, 0, 1, 2])))
@@ -1020,12 +1163,15 @@ def _msgs(rng, bs):
     for _ in range(n):
         k = rng.choice([0, 1, 2, 3, bs - 6, bs - 5, bs - 4, bs - 2, 2 * bs - 6, rng.randint(0, 40), rng.randint(0, 40), rng.choice([100, 300, 1200, 3000])])
         style = rng.random()
-        if style < 0.5:
+        if style < 0.45:
             d = bytes(rng.randrange(256) for _ in range(k))
-        elif style < 0.7:
+        elif style < 0.6:
             d = (b"\nSSH-2.0-zz\n" * (k // 12 + 1))[:k]
+        elif style < 0.75:     # line terminators inside packet data (CR LF, LF CR, CR CR LF, bare CR)
+            pat = rng.choice([b"\r\n", b"ab\r\ncd", b"\r\nSSH-2.0-zz\r\n", b"\n\r", b"\r\r\n", b"x\r"])
+            d = (pat * (k // len(pat) + 1))[:max(k, len(pat))]
         else:
-            d = bytes([rng.choice([0, 10, 65])]) * k
+            d = bytes([rng.choice([0, 10, 13, 65])]) * k
         out.append([rng.choice([94, 94, 90, 20, 21, 1, 2, 50, 80, 255, 0, 10]), d.hex()])
     return out
 
@@ -1069,12 +1215,50 @@ def _cuts(rng, c, style=None):
     return cuts, style
 
 
+def _other(rng, fw):
+    """algorithms for the other direction that differ from `fw` where it matters: another block size, another MAC
+    length, MAC / cipher / compression present in one direction only"""
+    ci, ma, co = fw
+    r = rng.random()
+    if r < 0.3:
+        ci = rng.choice([x for x in CIPHERS if _bs_of(x) != _bs_of(ci)] or CIPHERS)
+    elif r < 0.4:
+        ci = rng.choice(CIPHERS)
+    r = rng.random()
+    if r < 0.35:
+        ma = rng.choice([x for x in MACS if _MS[x] != _MS[ma]])
+    elif r < 0.5:
+        ma = "none" if ma != "none" else rng.choice(MACS[:-1])
+    if rng.random() < 0.5:
+        co = "zlib" if co == "none" else "none"
+    if [ci, ma, co] == list(fw):
+        ma = rng.choice([x for x in MACS if x != ma])
+    return [ci, ma, co]
+
+
+def _big_msgs(rng, comp):
+    """messages around the sizes where limits live (2^15 … the 2^20 packet limit of getPacket; with compression the
+    payload itself may be several times that as long as the compressed packet stays below it)"""
+    top = LIMIT - 4096
+    sizes = [32768, 40000, 65535, 65536, 100000, 131072, 200000, 262143, 262144, 262145, 300000]
+    if rng.random() < 0.15:
+        sizes = [524288, 700000, 1000000, top]
+    n = rng.choice(sizes) + rng.choice([0, 0, -1, 1, 7])
+    kind = rng.choice(["r", "r", "z", "p"] if comp != "zlib" else ["r", "z", "p", "z", "p"])
+    if comp == "zlib" and kind != "r" and rng.random() < 0.6:
+        n = rng.choice([LIMIT + 5, 2 * LIMIT, 3 * LIMIT + 17])      # compresses to a few KB
+    n = min(n, top) if (comp != "zlib" or kind == "r") else n
+    spec = {"r": ["r", n, rng.randrange(1 << 30)], "z": ["z", n], "p": ["p", n, rng.choice(["0d0a", "00ff", "53534821", "616263640a"])]}[kind]
+    small = lambda: [rng.choice([94, 2, 80]), bytes(rng.randrange(256) for _ in range(rng.choice([0, 1, 5, 40]))).hex()]   # noqa: E731
+    return rng.choice([[[94, spec]], [[94, spec], small()], [small(), [94, spec], small()]]), n
+
+
 def generate(rng, tier):
     n = 1300 if tier == "quick" else 24000
     if tier == "thorough":   # the 2^20 packet-length limit of getPacket, both sides (slow in the list-based model: thorough only)
         big = LIMIT - 4 - 2 - 7   # none cipher (bs 8): 5 + 1 + n + pad
-        yield _base(cipher="none", mac="none", msgs=[[94, big], [94, "ff"]], cuts=[])
-        yield _base(cipher="none", mac="none", msgs=[[94, big + 8], [94, "ff"]], cuts=[])
+        yield _base(cipher="none", mac="none", msgs=[[94, big], [94, "ff"]], cuts=[], model=1)
+        yield _base(cipher="none", mac="none", msgs=[[94, big + 8], [94, "ff"]], cuts=[], model=1)
     combos = [(ci, ma, co) for ci in CIPHERS for ma in MACS for co in COMPS]
     rng.shuffle(combos)
     for i in range(n):
@@ -1085,16 +1269,49 @@ def generate(rng, tier):
         if rng.random() < 0.45:
             c["gv"] = 0
             c["banner"], c["version"], c["eol"] = _ident(rng)
+            if rng.random() < 0.25 and i % 5 not in (1, 3):
+                # what follows the identification in every real connection: packets in the clear
+                c["cipher"], bs = "none", 8
         else:
             c["gv"] = 1
+        asym = rng.random() < 0.35
+        if asym:
+            # the two directions of a connection are negotiated separately (RFC 4253 7.1): other algorithms the other way
+            c["rev"] = _other(rng, [c["cipher"], c["mac"], c["comp"]])
+        if i % (50 if tier == "quick" else 150) == 7:
+            # long messages (oracle-only unless compression makes the wire short); segment lengths and the altered offset are
+            # chosen without a trial run: the way a socket delivers (16 KiB / 64 KiB reads), a few random cuts, one piece
+            c["msgs"], n = _big_msgs(rng, c["comp"])
+            c["style"] = rng.choice(["one", "random", "reads"])
+            c["cuts"] = {"one": [], "random": sorted(rng.randrange(1, 2 * n) for _ in range(rng.randint(1, 4))),
+                         "reads": [rng.choice([16384, 65536])] * (n // 16384 + 2)}[c["style"]]
+            if c["style"] == "random":
+                c["cuts"] = [b - a for a, b in zip([0] + c["cuts"], c["cuts"])]
+            if rng.random() < 0.25 and c["mac"] != "none":
+                c["tamper"] = [rng.choice([5, 40, n // 2, n, rng.randrange(2 * n)]), rng.choice([1, 128, 255])]    # modulo the wire's length
+            yield c
+            continue
         if i % 5 in (1, 3):
             # key (re-)exchange on the sending side while payloads are being sent
             c["msgs"] = []
             if rng.random() < 0.15:
                 c["cipher"], c["mac"], c["comp"] = "none", "none", "none"      # the first key exchange of a connection
+                c.pop("rev", None)
             c["epochs"] = [[rng.choice(CIPHERS), rng.choice(MACS), rng.choice(COMPS)] for _ in range(3)]
             if rng.random() < 0.6:
                 c["epochs"] = [[e[0], e[1] if e[1] != "none" else "hmac-sha2-256", e[2]] for e in c["epochs"]]
+            # what a re-key negotiates in practice: the algorithms already in use (all three, or all but one)
+            prev = [c["cipher"], c["mac"], c["comp"]]
+            for k in range(3):
+                r = rng.random()
+                if r < 0.3:
+                    c["epochs"][k] = list(prev)
+                elif r < 0.45:
+                    j = rng.randrange(3)
+                    c["epochs"][k] = [c["epochs"][k][x] if x == j else prev[x] for x in range(3)]
+                prev = c["epochs"][k]
+            if asym:
+                c["epochs"] = [e + (_other(rng, e) if rng.random() < 0.8 else list(e)) for e in c["epochs"]]
             c["seq0"] = rng.choice([0, 3, 3, rng.randrange(2**32), 2**32 - 2, 2**32 - 5])
             c["hist"] = _hist(rng, c["dir"])
             c["cuts"] = []
@@ -1108,6 +1325,10 @@ def generate(rng, tier):
             yield c
             continue
         c["msgs"] = _msgs(rng, bs)
+        if not c["gv"] and c["cipher"] == "none" and rng.random() < 0.6:
+            # cleartext packets right after the version line that contain line terminators themselves
+            pat = rng.choice([b"\r\n", b"line1\r\nline2", b"\r\n\r\n", b"a\rb\nc\r\n", b"\n\r\n"])
+            c["msgs"].insert(rng.randrange(len(c["msgs"]) + 1), [rng.choice([94, 2, 4, 20]), (pat * rng.choice([1, 1, 2, 9])).hex()])
         c["cuts"] = []
         c["cuts"], c["style"] = _cuts(rng, c)
         if rng.random() < 0.3 and c["msgs"]:
@@ -1127,7 +1348,8 @@ def search(rng, tier, disagreeing):
         total = meta["ident"] + meta["wire"]
         for k in range(0, min(total, 400) + 1):
             yield dict(c, cuts=[k])
-        yield dict(c, cuts=[1] * total)
+        if total <= BIG:
+            yield dict(c, cuts=[1] * total)
         if c.get("tamper") and c["mac"] != "none":
             for k in range(min(meta["wire"], 300)):
                 yield dict(c, tamper=[k, c["tamper"][1]])
@@ -1150,9 +1372,17 @@ def shrink(c):
         if len(e) > 1:
             yield dict(c, epochs=e[:-1])
         for i, x in enumerate(e):
+            if len(x) > 3:
+                yield dict(c, epochs=e[:i] + [x[:3]] + e[i + 1:])
+        for i, x in enumerate(e):
             for k, v in ((2, "none"), (0, "aes128-ctr"), (1, "hmac-sha1")):
                 if x[k] != v:
                     yield dict(c, epochs=e[:i] + [x[:k] + [v] + x[k + 1:]] + e[i + 1:])
+    if c.get("rev"):
+        yield {k: v for k, v in c.items() if k != "rev"}
+        for k in range(3):
+            if c["rev"][k] != _cfg0(c)[k]:
+                yield dict(c, rev=c["rev"][:k] + [_cfg0(c)[k]] + c["rev"][k + 1:])
     for i in range(len(c["msgs"])):
         yield dict(c, msgs=c["msgs"][:i] + c["msgs"][i + 1:])
     for i, m in enumerate(c["msgs"]):
@@ -1161,6 +1391,9 @@ def shrink(c):
             yield dict(c, msgs=c["msgs"][:i] + [[m[0], d[: (len(d) // 4) * 2]]] + c["msgs"][i + 1:])
         if isinstance(d, int) and d > 1:
             yield dict(c, msgs=c["msgs"][:i] + [[m[0], d // 2]] + c["msgs"][i + 1:])
+        if isinstance(d, list) and d[1] > 1:
+            yield dict(c, msgs=c["msgs"][:i] + [[m[0], [d[0], d[1] // 2] + d[2:]]] + c["msgs"][i + 1:])
+            yield dict(c, msgs=c["msgs"][:i] + [[m[0], [d[0], d[1] - 1] + d[2:]]] + c["msgs"][i + 1:])
     if not c.get("gv"):
         b = c.get("banner", [])
         for i in range(len(b)):
@@ -1204,7 +1437,10 @@ def _tag_hist(c, out, r):
     seg = "1" if meta["nseg"] <= 1 else "few" if meta["nseg"] < 8 else "many"
     ds = [e.split(":")[0] for e in r["evs"] if e.startswith("D")]
     outc = "raise" if out.startswith("!") else (ds[0] if ds else "ok")
-    return (f"H:{c.get('dir', 0)}:{ck}:{c['mac']}:{c['comp']}:{who}:{'v' if valid else 'x'}:{'open' if open_round is not None else '-'}:"
+    eps = [_cfg0(c)] + [list(e) for e in c.get("epochs", [])]
+    asym = "a" if any(_asym(e) for e in eps) else "s"
+    same = "same" if any(_fw(eps[k]) == _fw(eps[k + 1]) for k in range(len(eps) - 1)) else "-"
+    return (f"H:{c.get('dir', 0)}:{ck}:{c['mac']}:{c['comp']}:{asym}:{same}:{who}:{'v' if valid else 'x'}:{'open' if open_round is not None else '-'}:"
             f"{min(max(held + [cur]), 3)}:{idt}:{seg}:{'t' if meta['toff'] is not None else '-'}:{outc}")
 
 
@@ -1228,4 +1464,7 @@ def tag(c, out):
     ds = [e.split(":")[0] for e in r["evs"] if e.startswith("D")]
     outc = "raise" if out.startswith("!") else (ds[0] if ds else "ok")
     wrap = "wrap" if c["seq0"] + len(c["msgs"]) > 2**32 else "-"
-    return f"{ck}:{c['mac']}:{c['comp']}:{idt}:{seg}:{min(len(c['msgs']), 3)}:{tam}:{wrap}:{outc}"
+    rv = _rv(_cfg0(c))
+    asym = "sym" if not _asym(_cfg0(c)) else "a%d%s%s" % (_bs_of(rv[0]), "=" if _MS[rv[1]] == meta["ms"] else "0" if rv[1] == "none" else "m", rv[2][0])
+    big = "-" if meta["long"] <= BIG else "big" if meta["long"] <= 262144 else "huge"
+    return f"{ck}:{c['mac']}:{c['comp']}:{asym}:{idt}:{seg}:{min(len(c['msgs']), 3)}:{tam}:{wrap}:{big}:{outc}"
